@@ -45,6 +45,7 @@ def jobs(tier, seed):
     out = [dict(name="model-vs-real-orbax", kind="model", devices=1, cost=50), dict(name="f0-no-directory", kind="f0", devices=1, cost=5)]
     for solver in ("vi", "pi", "rvi", "pvi", "savi"):
         out.append(dict(name=f"nonfinite-{solver}", kind="nonfinite", solver=solver, devices=1, seed=seed, cost=20))
+        out.append(dict(name=f"config-presence-{solver}", kind="cfgpresence", solver=solver, devices=1, seed=seed, cost=20))
     seqs = [[3], [2, 2], [2, "same", 2], [1, "new", 3]] if tier == "quick" else \
         [[1], [2], [3], [1, 1], [2, 2], [3, 1], [1, 3], [2, "same", 2], [3, "same", 1], [1, "new", 3], [2, "new", 2], [1, "same", 1, "new", 2]]
     combos = [(1, 1), (2, 1), (2, 2), (3, 2), (2, 3)] if tier == "quick" else [(f, m) for f in (1, 2, 3) for m in (1, 2, 3)]
@@ -82,7 +83,49 @@ def run_job(job):
         return run_f0(job, ob)
     if job["kind"] == "nonfinite":
         return run_nonfinite(job, ob)
+    if job["kind"] == "cfgpresence":
+        return run_cfgpresence(job, ob)
     return run_cadence(job, ob)
+
+
+def run_cfgpresence(job, ob):
+    """config.yaml is written exactly when solver and problem can be rebuilt from configuration - for every way of
+    combining problem instances and configuration objects (real Orbax, concrete)"""
+    import dataclasses
+    from mdpax.problems import Forest
+    name = job["solver"]
+    cls = kit.solver_class(name)
+    base = tempfile.mkdtemp(prefix="mdpv-cfgp-")
+    extra = dict(period=2) if name == "pvi" else {}
+    g = 1.0 if name == "rvi" else 0.9
+    try:
+        def run(tag, problem, config=None):
+            d = os.path.join(base, tag)
+            if config is None:
+                s = cls(problem, gamma=g, checkpoint_dir=d, checkpoint_frequency=1, max_checkpoints=2, enable_async_checkpointing=False, verbose=0, **extra)
+            else:
+                config = dataclasses.replace(config, checkpoint_dir=d)
+                s = cls(problem=problem, config=config)
+            s.solve(2)
+            return s, os.path.exists(os.path.join(d, "config.yaml")), (sorted(p for p in os.listdir(d) if p.isdigit()), [str(i) for i in range(1, s.iteration + 1)][-2:])
+        cases = []
+        s1, has1, steps1 = run("builtin-kwargs", Forest(S=4))
+        cases.append(("builtin-kwargs", has1, True, steps1))
+        _, has2, steps2 = run("custom-kwargs", ckkit.make_problem("tab"))
+        cases.append(("custom-kwargs", has2, False, steps2))
+        # a configuration object that already describes a built-in problem, used with a problem that has no configuration
+        _, has3, steps3 = run("custom-with-config-naming-a-builtin", ckkit.make_problem("tab"), s1.config)
+        cases.append(("custom-with-config-naming-a-builtin", has3, False, steps3))
+        _, has4, steps4 = run("builtin-with-reused-config", Forest(S=5), s1.config)
+        cases.append(("builtin-with-reused-config", has4, True, steps4))
+        for tag, has, want, steps in cases:
+            ob.prove(f"config.yaml-iff-reconstructible[{tag}]", [], has == want, cex=lambda m, tag=tag: dict(kind="cfgpresence", solver=name, case=tag),
+                     kind="config.yaml present exactly when solver+problem are reconstructible from configuration")
+            ob.prove(f"steps-written[{tag}]", [], steps[0] == steps[1], cex=lambda m, tag=tag: dict(kind="cfgpresence", solver=name, case=tag),
+                     kind="retained steps == the m most recent of {multiples of f} U {last iteration} (configuration combinations)")
+    finally:
+        shutil.rmtree(base, ignore_errors=True)
+    return ob.result()
 
 
 def nonfinite_problem(seed):
@@ -279,6 +322,11 @@ def replay(data):
             return ok, "no exception with the real Orbax; " + msg
         except Exception as ex:
             return True, f"real run raised {type(ex).__name__}: {ex}"
+    if job["kind"] == "cfgpresence":
+        ob2 = Obligations(job)
+        run_cfgpresence(job, ob2)
+        bad = [v["obligation"] for v in ob2.violations]
+        return bool(bad), f"{job['name']}: failing {bad}" if bad else f"{job['name']}: as documented"
     if job["kind"] == "nonfinite":
         ob2 = Obligations(job)
         run_nonfinite(job, ob2)
